@@ -69,10 +69,10 @@ func runC19(w *World) {
 	var hist []porcupine.Operation
 	bodies := map[int]string{} // post id -> formatted post
 	type postRec struct {
-		id          int
-		inv, ret    uint64
-		formatted   string
-		client      int
+		id        int
+		inv, ret  uint64
+		formatted string
+		client    int
 	}
 	var posts []postRec
 	type loginRec struct{ from, to uint64 } // interval during which the client was surely registered
@@ -179,27 +179,31 @@ func runC19(w *World) {
 		},
 		Equal: func(a, b interface{}) bool { return a.(string) == b.(string) },
 	}
+	// the search runs after the bubble has ended: inside it the clock is simulated and does not advance while the
+	// search computes, so porcupine's timeout would never fire and one hard history would stall the worker
 	if len(hist) > 0 {
-		res := porcupine.CheckOperationsTimeout(model, hist, 20*time.Second)
-		switch res {
-		case porcupine.Illegal:
-			// describe one offending read for the report
-			detail := ""
-			for _, op := range hist {
-				if in := op.Input.(c19In); !in.Post {
-					got := op.Output.(string)
-					if !c19Plausible(got, bodies, initial) {
-						detail = fmt.Sprintf("; e.g. client %d read %d bytes that are not a sequence of whole posts followed by the initial text", op.ClientId, len(got))
-						break
+		w.AfterBubble = append(w.AfterBubble, func() {
+			res := porcupine.CheckOperationsTimeout(model, hist, 20*time.Second)
+			switch res {
+			case porcupine.Illegal:
+				// describe one offending read for the report
+				detail := ""
+				for _, op := range hist {
+					if in := op.Input.(c19In); !in.Post {
+						got := op.Output.(string)
+						if !c19Plausible(got, bodies, initial) {
+							detail = fmt.Sprintf("; e.g. client %d read %d bytes that are not a sequence of whole posts followed by the initial text", op.ClientId, len(got))
+							break
+						}
 					}
 				}
+				w.Violate("c19-not-linearizable", "history of %d posts/reads has no linearization against 'list of posts, newest first'%s", len(hist), detail)
+			case porcupine.Unknown:
+				w.Probe("porcupine_inconclusive")
+			default:
+				w.Probe("porcupine_ok")
 			}
-			w.Violate("c19-not-linearizable", "history of %d posts/reads has no linearization against 'list of posts, newest first'%s", len(hist), detail)
-		case porcupine.Unknown:
-			w.Probe("porcupine_inconclusive")
-		default:
-			w.Probe("porcupine_ok")
-		}
+		})
 	}
 
 	// announcements: every acknowledged post reaches each client connected throughout exactly once
